@@ -37,12 +37,214 @@ def run(chk, repo):
                       "layouts decoded for one terminal are handed to "
                       "another of the same kind but a different revision "
                       "or mapping")
-    read_one(chk, repo)
-    walk(chk, repo)
+    rows, bad = sii(chk, repo)
+    if rows is None:
+        # the reader cannot be executed abstractly: its shape is looked at
+        chk.ob("R17.1", T + ".read_eeprom", "abstract execution against "
+               "the interface model not possible; shape rules apply", True,
+               repo.func(T + ".read_eeprom"), bad)
+        read_one(chk, repo)
+        walk(chk, repo)
+    else:
+        chk.ob("R17.1", T + ".read_eeprom", f"identity fields and every "
+               f"category up to the end marker are returned as stored "
+               f"({rows} runs against a model of the EEPROM interface, by "
+               f"abstract execution)", not bad,
+               repo.func(T + ".read_eeprom"), "; ".join(bad[:3]) or
+               "4- and 8-byte interfaces, busy 0..3 polls, 11 images")
+        identity(chk, repo)
     busy(chk, repo)
     strides(chk, repo)
     modes(chk, repo)
     pdos(chk, repo)
+
+
+class _SII:
+    """an ESC's EEPROM interface as the two register accessors of a
+    terminal see it: control/status word at 0x502 (busy 0x8000, 8-byte
+    reads 0x40), the address at 0x504, eight data bytes at 0x508.  A read
+    command (0x100) takes `busy` polls to complete; until then the data
+    registers hold the leftovers of the previous access.  A command written
+    while busy is ignored, as on the hardware."""
+
+    def __init__(self, image, mode8, busy, busy0, fail_at=None):
+        self.fail_at = fail_at
+        self.reads = 0
+        self.image, self.mode8 = image, mode8
+        self.busy, self.count = busy, busy0
+        self.addr = 0
+        self.data = b"\xdd" * 8
+        self.pending = None
+        self.errors = []
+        self.commands = 0
+
+    def _tick(self):
+        if self.count:
+            self.count -= 1
+            if not self.count and self.pending is not None:
+                a = self.pending
+                self.pending = None
+                n = 8 if self.mode8 else 4
+                d = self.image[2 * a:2 * a + n]
+                self.data = (d + b"\xee" * 8)[:8]
+
+    def read(self, addr, fmt=None, *args, **kw):
+        import struct
+        if addr != 0x502 or not isinstance(fmt, str):
+            self.errors.append(f"read({addr!r}, {fmt!r})")
+            raise Raised("EtherCatError: no such register")
+        self.reads += 1
+        if self.fail_at is not None and self.reads == self.fail_at:
+            raise Raised("EtherCatError: datagram lost")
+        busy = bool(self.count)
+        status = (0x8000 if busy else 0) | (0x40 if self.mode8 else 0)
+        regs = struct.pack("<HI", status, self.addr) + self.data
+        try:
+            ret = struct.unpack("<" + fmt, regs[:struct.calcsize(
+                "<" + fmt)])
+        except struct.error as e:
+            raise Raised(f"struct.error: {e}")
+        self._tick()
+        return ret
+
+    def write(self, addr, fmt=None, *args, **kw):
+        if addr != 0x502 or fmt != "HI" or len(args) != 2:
+            self.errors.append(f"write({addr!r}, {fmt!r}, {args})")
+            return None
+        cmd, a = (getattr(x, "value", x) for x in args)
+        if self.count:
+            self.errors.append(f"command for word {a:#x} written while "
+                               f"the interface is busy")
+            return None
+        if cmd != 0x100:
+            self.errors.append(f"command {cmd:#x}")
+            return None
+        self.commands += 1
+        self.addr = a
+        self.pending = a
+        self.count = self.busy
+        if not self.count:
+            self.count = 1
+            self._tick()
+        return None
+
+
+def _images():
+    """SII images: identity words, then categories (type, bytes) from word
+    0x40 up to the end marker; deterministic, of every alignment"""
+    import struct
+    seed = [12345]
+
+    def rnd(n):
+        seed[0] = (seed[0] * 1103515245 + 12345) & 0x7fffffff
+        return (seed[0] >> 8) % n
+    lists = [[], [(10, 6)], [(41, 8), (50, 2), (30, 0), (60, 14)],
+             [(0, 4), (1, 10)], [(5, 2), (0xfffe, 6), (7, 12), (9, 2)]]
+    for _ in range(6):
+        k = 1 + rnd(5)
+        types = []
+        while len(types) < k:
+            t = rnd(0x7000)
+            if t not in types:
+                types.append(t)
+        lists.append([(t, 2 * rnd(12)) for t in types])
+    out = []
+    for cats in lists:
+        head = bytes(rnd(256) for _ in range(0x80))
+        body = b""
+        want = {}
+        for t, n in cats:
+            payload = bytes(rnd(256) for _ in range(n))
+            body += struct.pack("<HH", t, n // 2) + payload
+            want[t] = payload
+        body += struct.pack("<HH", 0xffff, 0xffff)
+        tail = bytes([0xff] * 32)
+        out.append((head + body + tail, want))
+    return out
+
+
+def sii(chk, repo):
+    """R17.1/R17.2 by abstract execution: Terminal.read_eeprom and
+    _eeprom_read_one run against a model of the EEPROM interface, for images
+    of every alignment, 4- and 8-byte interfaces and busy periods of 0..3
+    polls (before the first command, and after each)"""
+    import struct
+    tci = repo.cls(T)
+    chk.analysed(T + ".read_eeprom", T + "._eeprom_read_one")
+    bad = []
+    rows = 0
+    images = _images()
+    # (interface width, busy polls per command, busy polls at the start,
+    #  history before the read that is compared: None, "reread" - a
+    #  complete read of another image first, or the number of the register
+    #  read at which an earlier attempt lost its datagram)
+    plans = [(m8, b, b0, None) for m8 in (True, False)
+             for b, b0 in ((0, 0), (1, 0), (3, 2), (2, 1))]
+    plans += [(m8, 1, 0, h) for m8 in (True, False)
+              for h in ("reread", 2, 5, 9, 14, 23)]
+    for mode8, busy, busy0, hist in plans:
+        for k, (image, want) in enumerate(images):
+            if hist is not None and k % 3 != 2:
+                continue
+            if True:
+                rows += 1
+                ev = Evaluator(repo, tci.module, tci)
+                try:
+                    me = ev.construct(tci, [Obj(None, {})], {})
+                except (Unknown, Raised) as e:
+                    return None, f"Terminal(): {e}"
+                me.fields["position"] = 1
+                tag = (f"{'8' if mode8 else '4'}-byte interface, busy "
+                       f"{busy0}/{busy} polls, {len(want)} categories")
+                if hist is not None:
+                    other = images[(k + 1) % len(images)][0]
+                    pre = _SII(other, mode8, busy, busy0, None if hist
+                               == "reread" else hist)
+                    me.fields["read"] = ("hook", pre.read)
+                    me.fields["write"] = ("hook", pre.write)
+                    try:
+                        ev.call(ev.getattr(me, "read_eeprom"), [])
+                    except Budget as e:
+                        bad.append(f"{tag}: the walk does not end ({e})")
+                        return rows, bad
+                    except Unknown as e:
+                        return None, str(e)
+                    except Raised:
+                        pass
+                    tag += (", after a complete read of another image"
+                            if hist == "reread" else f", after an attempt "
+                            f"that lost the datagram of register read "
+                            f"{hist}")
+                    ev = Evaluator(repo, tci.module, tci)
+                dev = _SII(image, mode8, busy, busy0)
+                me.fields["read"] = ("hook", dev.read)
+                me.fields["write"] = ("hook", dev.write)
+                try:
+                    ev.call(ev.getattr(me, "read_eeprom"), [])
+                except Budget as e:
+                    bad.append(f"{tag}: the walk does not end ({e})")
+                    return rows, bad
+                except Unknown as e:
+                    return None, str(e)
+                except Raised as e:
+                    bad.append(f"{tag}: raises {e.what}")
+                    continue
+                ident = struct.unpack("<IIII", image[16:32])
+                got = tuple(me.fields.get(k) for k in (
+                    "vendorId", "productCode", "revisionNo", "serialNo"))
+                ee = me.fields.get("eeprom")
+                if dev.errors:
+                    bad.append(f"{tag}: {dev.errors[0]}")
+                elif got != ident:
+                    bad.append(f"{tag}: identity {got}, stored {ident}")
+                elif ee != want:
+                    d = sorted(set(want) ^ set(ee)) if isinstance(
+                        ee, dict) else "no dict"
+                    bad.append(f"{tag}: categories differ from the image "
+                               f"(types only on one side: {d})" if d else
+                               f"{tag}: category contents differ from the "
+                               f"image")
+    return rows, bad
 
 
 def read_one(chk, repo):
@@ -112,6 +314,10 @@ def walk(chk, repo):
                        mode="stmt"))
         chk.ob("R17.1", sym, f"identity read at EEPROM.{name}", ok, f,
                "two 32-bit words")
+    identity(chk, repo)
+
+
+def identity(chk, repo):
     ee = repo.cls("ebpfcat.ethercat.EEPROM")
     ev = Evaluator(repo, ee.module)
     mem = ev.enum_members(ee)
@@ -159,11 +365,24 @@ def busy(chk, repo):
                "terminal loading its EEPROM) is ignored, and the data of "
                "the previous address is returned" if not ok_ else
                "status register 0x502 read on every path to the command")
+        def exit_test(w):
+            """the busy test of a polling loop: its `while` condition, or
+            the condition of the `if not busy: break` that ends a
+            `while True` (do-while spelling); as the *stay* condition"""
+            if "32768" in unparse(w.test):
+                return w.test
+            for s_ in w.body:
+                if isinstance(s_, ast.If) and "32768" in unparse(s_.test) \
+                        and len(s_.body) == 1 and isinstance(
+                            s_.body[0], ast.Break) and not s_.orelse:
+                    from ..normalize import negate
+                    return negate(s_.test)
+            return None
         loops = [w for w in walk_no_nested(f) if isinstance(w, ast.While)
-                 and "32768" in unparse(w.test)]
+                 and exit_test(w) is not None]
         for w in loops:
             n += 1
-            t = w.test
+            t = exit_test(w)
             inline = find("self.read(1282, 'H')", t)
             if inline:
                 chk.ob("R17.2", sym, "waits for the interface to be idle "
@@ -198,8 +417,8 @@ def busy(chk, repo):
                         same_read = st is not None and isinstance(
                             st, ast.Assign) and isinstance(
                                 st.targets[0], ast.Tuple) and any(
-                                    isinstance(w.test, ast.BinOp) and
-                                    unparse(w.test.left) in [
+                                    isinstance(exit_test(w), ast.BinOp) and
+                                    unparse(exit_test(w).left) in [
                                         unparse(e) for e in
                                         st.targets[0].elts]
                                     for w in loops if st in w.body)
@@ -323,7 +542,143 @@ def modes(chk, repo):
            "description")
 
 
+def _pdo_want(entries, sm):
+    want, bp = {}, 0
+    for i_, s_, b_ in entries:
+        if i_ != 0:
+            if b_ < 8:
+                want[(i_, s_)] = (sm, bp // 8, bp % 8)
+            elif b_ % 8 or bp % 8:
+                return None, None
+            else:
+                want[(i_, s_)] = (sm, bp // 8, {8: "B", 16: "H", 32: "I",
+                                                64: "Q"}[b_])
+        bp += b_
+    return want, bp
+
+
+def pdos_whole(chk, repo):
+    """Terminal.parse_pdos as a whole, by abstract execution, from both
+    sources: the EEPROM categories 51/50 (PDO records of 8 bytes + 8 per
+    entry) and the CoE objects 0x1c12/0x1c13 (assignment lists and mapping
+    objects, answered by a stand-in sdo_read_format).  Returns False when
+    the method cannot be executed (the consumer alone is then looked at)."""
+    import struct
+    sym = T + ".parse_pdos"
+    tci = repo.cls(T)
+    f = repo.func(sym)
+    smc = repo.cls("ebpfcat.ethercat.SyncManager")
+    sm = Evaluator(repo, smc.module, smc).enum_members(smc)
+    IN, OUT = sm["IN"], sm["OUT"]
+    lists = [
+        [(0x6000, 1, 1), (0x6000, 2, 1), (0, 0, 6), (0x6010, 1, 16)],
+        [(0x7000, 1, 8), (0, 0, 8), (0x7000, 2, 32), (0x7010, 1, 64)],
+        [(0, 0, 16), (0x6000, 0x11, 16), (0x6000, 1, 1), (0, 0, 7),
+         (0x6020, 1, 8)],
+        [(0x7020, 1, 16), (0x7020, 2, 16), (0x7020, 3, 8)],
+        [],
+    ]
+    pairs = [(0, 1), (1, 0), (3, 2), (2, 3), (4, 0), (3, 4), (4, 4),
+             (1, 1)]
+    bad = []
+    rows = 0
+
+    def split(entries, n):
+        """the entries as PDOs of at most n entries"""
+        return [entries[i:i + n] for i in range(0, len(entries), n)] or []
+    for source in ("eeprom", "sdo"):
+        for io, ii in pairs:
+            for per in (1, 3):
+                outs, ins = lists[io], lists[ii]
+                # distinct indices per direction
+                ins = [(i_ + 0x800 if i_ else 0, s_, b_)
+                       for i_, s_, b_ in ins]
+                rows += 1
+                tag = (f"{source}: outputs {outs}, inputs {ins}, {per} "
+                       f"entries per PDO")
+                wo, bo = _pdo_want(outs, OUT)
+                wi, bi = _pdo_want(ins, IN)
+                want = dict(wo)
+                want.update(wi)
+                fields = {"pdos": {"stale": 1}}
+                if source == "eeprom":
+                    ee = {}
+                    for cat, ents in ((51, outs), (50, ins)):
+                        blob = b""
+                        for k, grp in enumerate(split(ents, per)):
+                            blob += struct.pack("<HBbBBH", 0x1600 + k,
+                                                len(grp), 2, 0, 0, 0)
+                            for i_, s_, b_ in grp:
+                                blob += struct.pack("<HBBBB2x", i_, s_, 0,
+                                                    0, b_)
+                        if ents or cat == 50:
+                            ee[cat] = blob
+                    fields.update(eeprom=ee, mbx_out_off=None,
+                                  mbx_in_off=None)
+                else:
+                    od = {}
+                    for index, base, ents in ((0x1c12, 0x1600, outs),
+                                              (0x1c13, 0x1a00, ins)):
+                        grps = split(ents, per)
+                        # an unassigned slot (0) among the assignments
+                        slots = [base + k for k in range(len(grps))]
+                        if len(slots) > 1:
+                            slots.insert(1, 0)
+                        od[index, 0] = struct.pack("B", len(slots))
+                        for n_, pdo in enumerate(slots, start=1):
+                            od[index, n_] = struct.pack("<H", pdo)
+                        for k, grp in enumerate(grps):
+                            od[base + k, 0] = struct.pack("B", len(grp))
+                            for j, (i_, s_, b_) in enumerate(grp, start=1):
+                                od[base + k, j] = struct.pack(
+                                    "<BBH", b_, s_, i_)
+
+                    def rd(fmt, index, sub, _od=od):
+                        if (index, sub) not in _od:
+                            raise Raised("EtherCatError: no such object")
+                        return struct.unpack(
+                            fmt if fmt[:1] in "<>!=" else "<" + fmt,
+                            _od[index, sub])
+                    fields.update(mbx_out_off=0x1000, mbx_in_off=0x1080,
+                                  eeprom={}, sdo_read_format=("hook", rd))
+                me = Obj(tci, fields)
+                try:
+                    got = Evaluator(repo, f._module, tci).call_function(
+                        f, [me], cls=tci)
+                except Budget as e:
+                    bad.append(f"{tag}: does not end ({e})")
+                    break
+                except Unknown as e:
+                    return False, str(e)
+                except Raised as e:
+                    bad.append(f"{tag}: raises {e.what[:40]}")
+                    continue
+                if tuple(got or ()) != (bo, bi):
+                    bad.append(f"{tag}: returns {got!r} bits, stored "
+                               f"{(bo, bi)}")
+                elif me.fields.get("pdos") != want:
+                    d_ = {k: (me.fields["pdos"].get(k), want.get(k))
+                          for k in set(want) | set(me.fields["pdos"])
+                          if me.fields["pdos"].get(k) != want.get(k)}
+                    k0 = sorted(d_, key=str)[0]
+                    bad.append(f"{tag}: entry {k0} -> {d_[k0][0]}, stored "
+                               f"at {d_[k0][1]}")
+    chk.ob("R17.4", sym, f"every mapped entry gets the sync manager, byte "
+           f"offset and bit / format stored for it, and the sizes returned "
+           f"are those of each direction ({rows} tables from EEPROM and CoE "
+           f"sources, by abstract execution)", not bad, f,
+           "; ".join(bad[:2]) or "outputs and inputs counted separately, "
+           "gaps advance the position, old entries are dropped")
+    return True, None
+
+
 def pdos(chk, repo):
+    ok_, why_ = pdos_whole(chk, repo)
+    if ok_:
+        try:
+            repo.func(T + ".parse_pdos.parse")
+        except AnalysisError:
+            return      # another shape of the method: the tables decide
     sym = T + ".parse_pdos.parse"
     f = repo.func(sym)
     chk.analysed(sym)
